@@ -92,9 +92,9 @@ static void run(unsigned accpat, unsigned flippat) {
     if (op == 1) { vp_activate(); activated = 1; }
     else if (op == 2) run_one(0);
     else if (op == 3) run_one(1);
-    else if (op >= 10 && op < 13) { unsigned s = op - 10; if (mode[s] != M_PULL || reserved) continue;
+    else if (op >= 10 && op < 13) { unsigned s = op - 10; if (mode[s] != M_PULL) continue;
       npull_total++; int out = (int)vp_nd(), out0 = out; unsigned r = vp_get((u32*)&out);
-      VP_ASSERT(r == (nprod > ncons), "input_node try_get: success iff an item is cached and not reserved");
+      VP_ASSERT(r == (nprod > ncons && !reserved), "input_node try_get: success iff an item is cached and not reserved");
       if (r) consumed(out); else { VP_ASSERT(out == out0, "failed try_get wrote its output"); give_back(s); } }
     else if (op >= 20 && op < 23) { unsigned s = op - 20; if (mode[s] != M_PULL || reserved) continue;
       npull_total++; int out = (int)vp_nd(); unsigned r = vp_reserve((u32*)&out);
